@@ -94,7 +94,7 @@ CLAIMED = {
             BASE_NOTE + "SHA-256 collision freedom, HMAC unforgeability, pickle and diskcache are assumptions; the whole-run theorems cover function / if-else / route nodes (a cacheable "
             "interrupt reads the run state and is covered by the correspondence only) and the sync runner. Known finding C09-F1 (pickle memo makes keys identity-sensitive); "
             "Known finding C09-F2 (the in-memory backend stores by reference). Ten defects repaired (key over renamed names, gate fallback, name tables / nested code objects / "
-            "captured values in the definition hash, non-ASCII signature, rows in the store's own pickle mode unpickled before the HMAC check, emit sentinel identity, cached "
+            "captured values / concatenated reprs in the definition hash (its input is modelled: hashInput_eq_iff), non-ASCII signature, rows in the store's own pickle mode unpickled before the HMAC check, emit sentinel identity, cached "
             "interrupts, shared outputs). Injectivity of the definition hash on definitions is a hypothesis of the theorems.", "DESIGN.md §7 C09"),
     "C12": ("proof", "Lean 4 proof: runs generate a span-tree grammar; grammar implies flat well-nestedness; per-span orderings survive interleaving + correspondence with a span-tree oracle",
             "Kernel-checked for every program, runner, completion order and nesting depth: the event log of a terminated run is a trace of the span-tree grammar (RunStart first, "
